@@ -190,10 +190,19 @@ def gen_boundary(rng):
     return b.encode("ascii")
 
 
+# characters that str.splitlines() / str.strip() treat as line breaks or blanks although they are neither CR nor LF:
+# in a name they are ordinary characters (the header block is split as bytes, at CR and LF only)
+NAME_CHARS_ODD = "\x0b\x0c\x1c\x1d\x1e\x1f\t"
+NAME_CHARS_ODD_L1 = "\x85\xa0"
+NAME_CHARS_ODD_U = "\u2028\u2029\u3000"
+
+
 def gen_name(rng, u):
     chars = NAME_CHARS_ASCII + (NAME_CHARS_L1 if rng.random() < 0.5 else "")
     if u and rng.random() < 0.4:
         chars += NAME_CHARS_U
+    if rng.random() < 0.15:
+        chars = "ab" + NAME_CHARS_ODD + (NAME_CHARS_ODD_U if u else NAME_CHARS_ODD_L1)
     return "".join(rng.choice(chars) for _ in range(rng.choice([0, 1, 1, 2, 3, 5, 9])))
 
 
